@@ -578,5 +578,7 @@ def run(ctx):
     n = r_flag(ctx)
     r_stat(ctx)
     nc = r_pruned_consumers(ctx)
+    from . import c06
+    c06.r_opsem(ctx, only=("Function",))      # the weights of a composite are what the operators make them
     ctx.floor("family constructors", n, 24)
     ctx.floor("consumers of composite weights", nc, 3)
